@@ -19,7 +19,7 @@ for p in props:
             "evidence_file": "/verif/evidence/%s.json" % p['id'],
             "replay_cmd_template": "bin/govc replay {path}",
             "engine": "govc",
-            "level_claimed": {"category": "proof", "text": c['text'], "design_ref": c.get('design_ref', 'DESIGN.md §4-' + p['id'])},
+            "level_claimed": {"category": "proof", "text": c['text'], "design_ref": c.get('design_ref', 'DESIGN.md §9.6 (what is decided now) and §4-' + p['id'] + ' (the plan it grew from)')},
             "level_note": c['note'],
             "technique": c.get('technique', "contract-based deductive verification: weakest-precondition VCs generated from go/ssa of the real functions against //@ contracts, discharged by z3/cvc5"),
         })
